@@ -87,6 +87,12 @@ func (fv *FuncVerifier) call(st *State, instr ssa.Instruction, cc *ssa.CallCommo
 	if b, ok := cc.Value.(*ssa.Builtin); ok {
 		return fv.builtin(st, b, cc, args, pos), true
 	}
+	// addresses of locals passed to a callee escape: the local becomes a heap object
+	for i := range args {
+		if args[i].Place != nil && args[i].Place.Kind == PLocal {
+			args[i] = st.promote(args[i])
+		}
+	}
 	sig := cc.Signature()
 	if cc.IsInvoke() {
 		recv := st.get(cc.Value)
@@ -631,7 +637,7 @@ func (fv *FuncVerifier) appendOp(st *State, cc *ssa.CallCommon, args []Value) Va
 		}
 		// reallocated result
 		ra := enc.fresh("appnew", arrSort(l.Sort))
-		st.assume(Forall([]string{"k!q"}, Implies(And(Le(I(0), k), Lt(k, s.L[2])), Eq(Select(ra, k), Select(srcInner, Add(s.L[1], k))))))
+		st.assume(Forall([]string{"k!q"}, Implies(And(Le(I(0), k), Lt(k, s.L[2])), Eq(Select(ra, k), enc.elemAt(srcInner, s.L[1], k)))))
 		if constLen && n <= 8 {
 			for i := int64(0); i < n; i++ {
 				st.assume(Eq(Select(ra, Add(s.L[2], I(i))), elemOfT(I(i))))
